@@ -55,4 +55,18 @@ theorem chooseWords_ok (isD : Nat → Bool) (s s' : St) (w : Str) (h : step isD 
     obtain rfl := h
     exact ⟨_, rfl, rfl⟩
 
+/-- whatever state the objects are in (whatever was asked before): `get_word_completions(p)` through the helper
+    returns nothing while the wordlist is not there yet, and exactly `get_completions(p)` once it is -/
+theorem wordCompl_exact (isD : Nat → Bool) (s s' : St) (p : Str) (l : List Str)
+    (h : step isD s (.hWordCompl p) = (s', none)) (hl : s'.ret = some l) :
+    (s.inp = .S2_typing_code_no_wordlist ∧ l = []) ∨
+    (s.inp = .S3_typing_code_yes_wordlist ∧ l = getCompletions p 2) := by
+  cases hi : s.inp <;> cases hw : s.wordlist <;>
+    simp [step, fireInput, hi, hw, Input.table, runOuts, inputOut1] at h
+  all_goals
+    obtain rfl := h
+    simp at hl
+    subst hl
+    simp
+
 end WV.Proofs.C19
